@@ -94,7 +94,7 @@ def run(ctx):
   ctx.expect("R-C11-SCALAR", 2, "Multiply and MultiplyAffine")
   ctx.expect("R-C11-FORMULA", 16, "16 formula blocks")
   ctx.expect("R-C11-DISPATCH", 12, "special-case tables")
-  ctx.expect("R-C11-CURVES", 9, "nine curves")
+  ctx.expect("R-C11-CURVES", 10, "nine curves + constructor")
 
 
 # ------------------------------------------------------------------ FORMULA
@@ -599,6 +599,25 @@ def rule_dispatch(ctx):
           probs.append("scalar fall-back is applied to the wrong operands")
     if n_fb == 0:
       probs.append("no scalar fall-back for elements without a shared inverse (equal / opposite / infinite points)")
+    # every element gets a result: each pass of a loop that fills a result list stores into every list that loop fills (a pass without a store leaves
+    # the placeholder - the point at infinity - as the sum)
+    for li_ in w.loop_info.values():
+      for vis_ in li_.get("visits", []):
+        paths_ = [bp for bp in li_["body_paths"] if bp[4] is vis_]
+        filled = {}
+        for bp in paths_:
+          for i_ in bp[2].trace[bp[3]:]:
+            ev_ = w.events[i_]
+            if ev_.kind == "store" and isinstance(ev_.data["target"].value, ast.Name) and (as_poly(ev_.data["index"]) - as_poly(vis_["k"])).is_zero():
+              filled.setdefault(ev_.data["target"].value.id, set()).add(id(bp))
+        calls_fb = any(w.events[i_].kind == "store" and "lit('Add')" in repr(w.events[i_].data["value"]) or w.events[i_].kind == "store" and "lit('Double')" in repr(w.events[i_].data["value"])
+                       or w.events[i_].kind == "store" and "lit('Subtract')" in repr(w.events[i_].data["value"]) for bp in paths_ for i_ in bp[2].trace[bp[3]:])
+        if not calls_fb:
+          continue
+        for var_, got in filled.items():
+          for bp in paths_:
+            if bp[0] in ("fall", "continue") and id(bp) not in got:
+              probs.append("a pass of the result loop stores nothing into %s[i]: that element keeps its placeholder" % var_)
     # formula stores must be conditioned on an available inverse
     for e in w.events:
       if e.kind == "store" and any(a.kind == "idx" and a.args[0].as_atom() is not None and a.args[0].as_atom().kind == "mcall" and a.args[0].as_atom().args[1] == P("lit", "BatchInverse")
@@ -671,6 +690,22 @@ def rule_curves(ctx):
     names[kw["name"]] = key
     ctx.record(R, MODN + ":CURVE_FACTORY", cname, not probs, "; ".join(probs) or
                "prime field (%d bits), non-singular, G on curve, n prime, n*G = inf, Hasse-consistent with h = 1, name matches id" % p.bit_length())
+  # the constructor keeps every parameter under its own attribute: the table above is only as good as what the instances remember of it
+  f, w = walk(repo, "__init__")
+  want = {"a": P("param", "a"), "b": P("param", "b"), "mod": P("param", "mod"), "n": P("param", "n"), "name": P("param", "name"), "h": P("param", "h")}
+  got = {}
+  for e in w.events:
+    if e.kind == "setattr" and isinstance(e.data["base"], Poly) and e.data["base"] == P("param", "self"):
+      got.setdefault(e.data["attr"], []).append(e.data["value"])
+  probs = []
+  for attr, val in want.items():
+    vs = got.get(attr, [])
+    if not vs or not all(isinstance(v, Poly) and v == val for v in vs):
+      probs.append("self.%s is %s, not the parameter %s" % (attr, vs or "never set", attr))
+  gv = got.get("g", [])
+  if not gv or not all(isinstance(v, Seq) and len(v.items) == 2 and as_poly(v.items[0]) == P("param", "gx") and as_poly(v.items[1]) == P("param", "gy") for v in gv):
+    probs.append("self.g is %s, not (gx, gy)" % (gv or "never set",))
+  ctx.record(R, f.where, "constructor keeps each parameter under its own attribute", not probs, "; ".join(probs) or "a, b, mod, g = (gx, gy), n, name, h")
 
 
 # ------------------------------------------------------------------ SCALAR: double-and-add loops keep res + n * p invariant
